@@ -39,7 +39,8 @@ class TCP(Layer):
         flags: TCPFlag = TCPFlag(int(tcp.flags))
         header_length: int = tcp.dataofs * 4
         options_buffer = bytes(tcp)[TCP_HEADER_LENGTH:header_length]
-        options = TCPOptions.parse(options_buffer, is_syn=(flags == TCPFlag.SYN))
+        tcp_type = flags & (TCPFlag.SYN | TCPFlag.ACK | TCPFlag.FIN | TCPFlag.RST)
+        options = TCPOptions.parse(options_buffer, is_syn=(tcp_type == TCPFlag.SYN))
 
         quirks = Quirk(0)
 
